@@ -49,7 +49,7 @@ impl Property for C17 {
             if let Some(b) = m.first_mut() {
                 *b = gi as u8;
             }
-            let t = *ctx.ch.pick(&[1u32, 2, 2, 3, 3, 5, 9]);
+            let t = if ctx.ch.chance(1, 25) { 70 } else { *ctx.ch.pick(&[1u32, 2, 2, 3, 3, 5, 9]) };
             let epoch = ctx.ch.pick(EPOCHS).to_string();
             if groups.iter().any(|g| g.m == m && g.t == t && g.epoch == epoch) {
                 continue;
@@ -119,7 +119,7 @@ impl Property for C17 {
             let perm = ctx.ch.permutation(lines.len());
             let joined = perm.iter().map(|&i| lines[i].clone()).collect::<Vec<_>>().join("\n");
             let d = distinct(lines);
-            ctx.stats.state(crate::choices::mix(g.t as u64, (d.min(g.t as usize + 2) + 8 - g.t as usize) as u64));
+            ctx.stats.state(crate::choices::mix(g.t as u64, (d.min(g.t as usize + 2) as i64 - g.t as i64 + 80) as u64));
             let res = guarded(|| star_wasm::group_shares(&joined, &g.epoch)).map_err(|(loc, msg)| Violation::new("c17.panic", "group_shares", format!("group_shares panicked on honest lines at {}: {}", loc, msg)))?;
             let want = BASE64_STANDARD.encode(g.key);
             if d >= g.t as usize {
